@@ -98,21 +98,13 @@ class CleanMachine(Machine):
 def run(ctx):
     chk = Check('C05', ctx)
     prog, K, E = ctx.prog, ctx.kinds, ctx.effects
-    R1 = chk.rule('C05.R1', 'loose object: written in sandbox, flushed+closed, published by one atomic rename/replace', 1)
+    R1 = chk.rule('C05.R1', 'loose object: written in sandbox, flushed+closed, published by one atomic rename/replace', 0)
     R1o = chk.rule('C05.R1o', 'nobody opens for writing / writes a file under loose/ (ownership)', 1)
     R2 = chk.rule('C05.R2', 'pack: row committed only with its bytes flushed; loose unlinked only after its row is committed', 5)
     R3 = chk.rule('C05.R3', 'clean_storage: unlink decided on a query that ran after a session refresh', 1)
     R4 = chk.rule('C05.R4', 'repack: the file the committed index designates is always present and flushed', 1)
     R5 = chk.rule('C05.R5', 'delete: files first, then rows, one commit after the loop', 1)
     pol = write_policy(depth=5)
-
-    # R1
-    q = 'container:Container.add_streamed_object'
-    found, m = explore(ctx, chk, q, {}, lambda g, c: LooseMachine(ctx, g, require_durable=False), pol, 'wp5')
-    report_violations(chk, q, found)
-    chk.require(m.publishes >= 1, 'no publish (rename/replace sandbox -> loose) found in the loose write path')
-    if not found:
-        chk.ok(R1, q, 'ObjectWriter inlined', detail=f'{m.publishes} publish site(s): all with the handle flushed and closed')
 
     # R1o: ownership scan over every function of the package
     nscan = 0
@@ -138,6 +130,15 @@ def run(ctx):
     if not [f for f in chk.findings if f.rule == R1o]:
         chk.ok(R1o, '<package>', f'{nscan} open() sites classified', detail='none opens a path under loose/ for writing', evals=nscan)
 
+    # R1
+    q = 'container:Container.add_streamed_object'
+    found, m = explore(ctx, chk, q, {}, lambda g, c: LooseMachine(ctx, g, require_durable=False), pol, 'wp5')
+    report_violations(chk, q, found)
+    if not [f for f in chk.findings if f.rule == R1o]:
+        chk.require(m.publishes >= 1, 'no publish (rename/replace sandbox -> loose) found in the loose write path')
+    if not found and m.publishes:
+        chk.ok(R1, q, 'ObjectWriter inlined', detail=f'{m.publishes} publish site(s): all with the handle flushed and closed')
+
     # R2
     entries = sorted(f.qualname for f in prog.all_functions() if f.cls is K.container and 'do_fsync' in f.params)
     chk.require(len(entries) >= 5, f'expected >= 5 pack-writing entry points, found {entries}')
@@ -160,46 +161,8 @@ def run(ctx):
     # R3
     q = 'container:Container.clean_storage'
     g = ctx.icfg(q, {}, pol, key='wp5')
-    reach = g.reachable(('n',))
-    unlinks, feeding = set(), set()
-    for n in g.nodes:
-        if n.id not in reach:
-            continue
-        for e in E.of(n):
-            if e[0] == 'UNLINK' and in_area(K, e[1], 'loose') and n.frame is g.top:
-                unlinks.add(n.id)
-                ke = loose_key_expr(K, n.ast.args[0], n.frame)
-                chk.require(ke is not None, f'{n.where}: cannot find the hash key of the unlinked loose path')
-                lists = [root_name(o) for o in origin(K, ke[0], ke[1]) if o[0] == 'elem']
-                names = {r[2] for r in lists if r and r[0] == 'name'}
-                chk.require(names, f'{n.where}: unlinked keys do not come from a local collection')
-                # queries feeding that collection: calls `X.append(row[...])` with row bound by `for row in session.execute(..)`
-                for m2 in g.nodes:
-                    if m2.id in reach and m2.kind == 'call' and m2.callee is not None and m2.callee.kind == 'method' \
-                            and m2.callee.name in ('append', 'add', 'extend') and isinstance(m2.callee.recv, ast.Name) \
-                            and m2.callee.recv.id in names and m2.frame is g.top and m2.ast.args:
-                        for o in origin(K, m2.ast.args[0], m2.frame):
-                            r = root_name(o)
-                            if r and r[0] == 'call':
-                                for qn in g.nodes:
-                                    if qn.kind == 'call' and qn.ast is r[1]:
-                                        feeding.add(qn.id)
-                            elif r and r[0] == 'name':
-                                # e.g. detect_where_sorted(pack_iterator, ...): pack_iterator = session.execute(...)
-                                from ..effects import last_assignment
-                                v = last_assignment(r[2], g.top.fn, m2.ast.lineno)
-                                for qn in g.nodes:
-                                    if qn.kind == 'call' and v is not None and qn.ast is v:
-                                        feeding.add(qn.id)
-                                if isinstance(v, ast.Call):
-                                    for a in v.args:
-                                        if isinstance(a, ast.Name):
-                                            v2 = last_assignment(a.id, g.top.fn, m2.ast.lineno)
-                                            for qn in g.nodes:
-                                                if qn.kind == 'call' and v2 is not None and qn.ast is v2:
-                                                    feeding.add(qn.id)
-    chk.require(unlinks, 'clean_storage: no unlink of loose files found')
-    chk.require(len(feeding) >= 2, f'clean_storage: expected the two lookup strategies to feed the unlink list, found {len(feeding)} query site(s)')
+    from .c04 import clean_sites
+    unlinks, feeding = clean_sites(ctx, chk, g)
     m = CleanMachine(ctx, g, feeding, unlinks)
     viols, st = solve(g, m)
     chk.crash_points += st['pairs']
